@@ -139,9 +139,12 @@ func newPackage(program *loader.Program, pkgInfo *loader.PackageInfo, plugins []
 			continue
 		}
 		for _, d := range file.Decls {
-			if fn, isFunc := d.(*ast.FuncDecl); isFunc && fn.Recv == nil {
-				reserved[fn.Name.Name] = struct{}{}
-				declared[fn.Name.Name] = struct{}{}
+			for _, name := range declaredNames(d) {
+				if name == "_" {
+					continue
+				}
+				reserved[name] = struct{}{}
+				declared[name] = struct{}{}
 			}
 		}
 	}
